@@ -475,7 +475,9 @@ def synth_pe(r):
     base = r.choice([0x400000, 0x10000000, 0x140000000 if plus else 0x1000000])
     dos = b"MZ" + bytes(r.getrandbits(8) for _ in range(58)) + struct.pack("<I", lfanew)
     stub = bytes(r.getrandbits(8) for _ in range(lfanew - 64))
-    optsize = (112 if plus else 96) + 16 * 8
+    ndirs = r.choice([16, 16, 16, 10, 2])
+    optpad = r.choice([0, 0, 8, 16])              # SizeOfOptionalHeader may exceed the structure: the section table follows it
+    optsize = (112 if plus else 96) + ndirs * 8 + optpad
     hdrs_end = lfanew + 24 + optsize + 40 * nsec
     sizeofheaders = (hdrs_end + falign - 1) // falign * falign
     secs = []
@@ -502,7 +504,7 @@ def synth_pe(r):
                MajorSubsystemVersion=6, MinorSubsystemVersion=0, Win32VersionValue=0, SizeOfImage=rva, SizeOfHeaders=sizeofheaders,
                CheckSum=r.getrandbits(32), Subsystem=r.choice([2, 3]), DllCharacteristics=r.choice([0x8160, 0x140, 0]),
                SizeOfStackReserve=0x100000, SizeOfStackCommit=0x1000, SizeOfHeapReserve=0x100000, SizeOfHeapCommit=0x1000,
-               LoaderFlags=0, NumberOfRvaAndSizes=16)
+               LoaderFlags=0, NumberOfRvaAndSizes=ndirs)
     if plus:
         del opt["BaseOfData"]
         o = struct.pack("<HBBIIIII", opt["Magic"], opt["MajorLinkerVersion"], opt["MinorLinkerVersion"], opt["SizeOfCode"],
@@ -523,7 +525,7 @@ def synth_pe(r):
                          opt["SizeOfImage"], opt["SizeOfHeaders"], opt["CheckSum"], opt["Subsystem"], opt["DllCharacteristics"],
                          opt["SizeOfStackReserve"], opt["SizeOfStackCommit"], opt["SizeOfHeapReserve"], opt["SizeOfHeapCommit"],
                          opt["LoaderFlags"], opt["NumberOfRvaAndSizes"])
-    o += b"\0" * (16 * 8)
+    o += b"".join(struct.pack("<II", 0, 0) for _ in range(ndirs)) + bytes(r.getrandbits(8) for _ in range(optpad))
     st = b"".join(struct.pack("<8sIIIIIIHHI", s["Name"], s["VirtualSize"], s["RVA"], s["SizeOfRawData"], s["PointerToRawData"],
                               s["PointerToRelocations"], s["PointerToLineNumbers"], s["NumberOfRelocations"],
                               s["NumberOfLineNumbers"], s["Characteristics"]) for s in secs)
@@ -531,7 +533,7 @@ def synth_pe(r):
     out += b"\0" * (sizeofheaders - len(out))
     for s in secs:
         out += bytes(r.getrandbits(8) for _ in range(s["SizeOfRawData"]))
-    return bytes(out), {"plus": plus, "nsec": nsec, "lfanew": lfanew}
+    return bytes(out), {"plus": plus, "nsec": nsec, "lfanew": lfanew, "ndirs": ndirs, "optpad": optpad}
 
 
 def synth_macho(r):
